@@ -10,7 +10,7 @@
  */
 
 /*@unit
-name: dlist_append
+name: dlist_append_b
 define: U_APPEND
 src: dlinked_list.c
 tier: B
